@@ -540,6 +540,43 @@ def run(chk):
     chk.count("received-resolving-a-waiter", n_res)
     chk.count("callback-invocations", n_cb)
     chk.count("histories-with-burst", n_burst)
+    # the SAME callable registered several times (different patterns of one command type, another command type, the same
+    # pattern twice): each registration is a registration - invoked once per matching registration, with the command
+    sc_bad = None
+    try:
+        import zigpy_zboss.commands as _c
+        import zigpy_zboss.config as _conf
+        from zigpy_zboss.api import ZBOSS as _Z
+        Rsp = _c.NcpConfig.GetZigbeeRole.Rsp
+        Ind = _c.ZDO.DevAnnceInd.Ind
+        import zigpy.types as _zt
+        regs = [[Rsp(TSN=1, partial=True)], [Rsp(TSN=2, partial=True)], [Rsp(partial=True)], [Ind(partial=True)],
+                [Rsp(TSN=2, partial=True)], [Rsp(TSN=1, partial=True), Ind(NWK=_zt.NWK(7), partial=True)]]
+        from zigpy_zboss.types import commands as _tc
+        cmds = [Rsp(TSN=t_, StatusCat=_tc.StatusCategory(0), StatusCode=_tc.StatusCodeGeneric(0), DeviceRole=_tc.DeviceRole(r_))
+                for t_ in (1, 2, 3) for r_ in (0, 1)] + \
+               [Ind(NWK=_zt.NWK(n_), IEEE=_zt.EUI64.convert("00:11:22:33:44:55:66:77"), MacCap=0) for n_ in (7, 8)]
+        for order in (list(range(len(regs))), list(reversed(range(len(regs)))), [0, 1], [1, 0], [2, 0, 4, 1]):
+            api = _Z(_conf.CONFIG_SCHEMA({_conf.CONF_DEVICE: {_conf.CONF_DEVICE_PATH: "/dev/null"}}))
+            got = []
+
+            def shared(cmd):
+                got.append(cmd)
+            for j in order:
+                api.register_indication_listeners(list(regs[j]), shared)
+            for cmd in cmds:
+                del got[:]
+                api.frame_received(cmd.to_frame())
+                want = sum(1 for j in order if any(p.matches(cmd) for p in regs[j]))
+                chk.evaluations += 1
+                if (len(got) != want or any(g != cmd for g in got)) and sc_bad is None:
+                    sc_bad = ([[str(p) for p in regs[j]] for j in order], str(cmd), len(got), want)
+    except Exception as e:  # noqa
+        sc_bad = sc_bad or ("harness", "%s: %s" % (type(e).__name__, e), -1, -1)
+    chk.oblige("monitor:same-callable-registered-several-times", sc_bad is None, json.dumps(sc_bad, default=str)[:300] if sc_bad else "")
+    if sc_bad:
+        chk.violation("one callable registered with %s: on receiving %s it was invoked %s time(s); %s of its registrations match"
+                      % sc_bad, {"registrations": sc_bad[0], "command": sc_bad[1]}, key="C12:same-callable")
     chk.oblige("tieB:ZBOSS-listeners-vs-model(%d histories)" % len(hist), tie_bad is None, json.dumps(tie_bad, default=str)[:300] if tie_bad else "")
     chk.oblige("monitor:oldest-pending-matching-waiter+matching-callbacks-once+request-type", mon_bad is None,
                json.dumps(mon_bad, default=str)[:300] if mon_bad else "")
